@@ -190,6 +190,43 @@ def schema_purity(run, quick):
     run.extra["schema_purity_calls"] = n
 
 
+def identity_independence(run, quick):
+    """Verdicts depend on the VALUES of the arguments, not on object identity: every sampled (trusted, offered) pair of Root.tla and every
+    (role, untrusted, trusted) call of Delegation.tla is executed with maximal sharing of equal parts between the two arguments (as after
+    copy-and-edit) and again on deep copies; the two verdicts must be the same."""
+    from .. import delegation_engine, gamma, root_engine, verify_engine
+    from ..tlc import decode_case_line
+    auth = lib.cct("authentication")
+    n = 0
+    for mod, cfg, eng in (("Root", "Root_emit_quick.cfg", root_engine), ("Delegation", "Delegation_emit_quick.cfg", delegation_engine)):
+        rx = run.tlc(mod, cfg, raw_cases=True, expect_cases=True, timeout=3000)
+        for batch in verify_engine.batches(rx.case_file, every=8 if quick else 2):
+            for line in batch[::3]:
+                case = decode_case_line(line)
+                r = verify_engine._rng(run.seed + 77, line)
+                args = eng.concretise(case, r, run.seed)
+                if mod == "Root":
+                    trusted, new = args
+                    call = lambda t, u: lib.call(auth.verify_root, t, u)      # noqa: E731
+                else:
+                    role, new, trusted, gpg = args
+                    call = lambda t, u: lib.call(auth.verify_delegation, role, u, t, gpg=gpg)      # noqa: E731
+                if not (isinstance(new, dict) and isinstance(new.get("signed"), (dict, list)) and isinstance(trusted, dict)):
+                    continue
+                try:
+                    shared_new = dict(new, signed=gamma.share_equal_parts(copy.deepcopy(new["signed"]), trusted))
+                    o_shared = call(trusted, shared_new)[0]
+                    o_copies = call(copy.deepcopy(trusted), copy.deepcopy(new))[0]
+                except (TypeError, ValueError, RecursionError):
+                    continue
+                n += 2
+                if o_shared != o_copies:
+                    run.violation(f"verify_{'root' if mod == 'Root' else 'delegation'}: the verdict differs between arguments that share equal parts and deep copies of them "
+                                  f"({o_shared} vs {o_copies})", {"kind": "identity", "api": mod, "case": case, "shared": o_shared, "copies": o_copies})
+    run.evaluations += n
+    run.extra["identity_independence_calls"] = n
+
+
 def check(run):
     quick = run.tier == "quick"
     run.rule = ("Calls.tla (two-level heap, shared pool, two threads stepping through the verifier loop, caller-side mutation, wrap, sign) "
@@ -262,6 +299,7 @@ def check(run):
     wrap_isolation(run)
     scale_purity(run)
     schema_purity(run, quick)
+    identity_independence(run, quick)
     # configurations: the same histories, sequentially, in fresh interpreters
     sample = behaviours[: (60 if quick else 600)]
     for cfg in procs.CONFIGS:
